@@ -89,4 +89,9 @@ def compile (L : Leaves) : Stmt → List Instr
     let R := compile L r
     L.cnd c ++ [jump "JUMPFALSE" (A.length + 1)] ++ rwB (R.length + 1) A ++ [jump "JUMP" R.length] ++ R
 
+/-- the leaves after the peephole passes (`c.optimize` of every block happens before its length is
+    taken for a jump offset) -/
+def optLeaves (L : Leaves) : Leaves :=
+  { act := fun n => optimize (L.act n), cnd := fun c => optimize (L.cnd c) }
+
 end Goat.CF
